@@ -46,6 +46,18 @@ def _extra(sc, uni, results, res, mons):
             seen_in[ev[3]] = ev[4]
         elif ev[2] == "rpc_out":
             seen_out.add(ev[3])
+    for ev in w.log:
+        # a handler that was cancelled did not run to completion either: whatever it had not
+        # committed yet is lost although the request was received in full
+        if ev[2] == "rpc_out" and ev[5] == "fail" and "Cancelled" in str(ev[6]):
+            if len(ev) > 8 and ev[8]:
+                # the director itself is shutting down (the build phase is over and its hash
+                # jobs are cancelled): not a consequence of the client's disappearance
+                res.stats["probe.handler_cancelled_by_director_shutdown"] += 1
+                continue
+            res.violate("R-atomic/completion", "request-cancelled",
+                        f"request {ev[3]}:{ev[4]} was received in full and its handler was cancelled ({ev[6]}: {str(ev[7])[:160]})",
+                        "request-cancelled")
     lost = [f"{rid}:{name}" for rid, name in seen_in.items() if rid not in seen_out]
     if lost and all(r.ok for r in results):
         res.violate("R-atomic/completion", "request-not-completed",
